@@ -461,6 +461,7 @@ def _selfcheck(cls):
 
 
 def check(tier, seed, procs):
+    J.selftest()
     cls = build()
     _selfcheck(cls)
     ncell = 12 if tier == 'quick' else 20
